@@ -25,7 +25,9 @@
 (* actions: HandleInline (MaxWorkers = 0 disables the pool: the handler    *)
 (* runs on the connection's receive goroutine, so concurrency is bounded   *)
 (* by the number of connections, not by the pool), HandlerSkipExpired (the *)
-(* worker answers "timeout" without calling the handler), RequeueUnsent    *)
+(* worker answers "timeout" without calling the handler), BodyReadDeadline  *)
+(* (a request waiting for request memory is dropped together with its      *)
+(* connection when the stale read deadline expires), RequeueUnsent         *)
 (* (inside MassCancel: an unsent call without fail-fast/deadline survives  *)
 (* a disconnect and even a server close; it returns only on reconnect,     *)
 (* cancel, deadline or client Close), LateResponseIgnored, ShutdownHoldsQ  *)
@@ -43,6 +45,7 @@ CONSTANTS
   MemLimit,       \* request memory limit, in units
   Take(_),        \* call id -> units taken for its request = max(len, RequestBufSize)
   CtlTake,        \* units taken by a cancel / FIN packet (= RequestBufSize)
+  AllowBodyDeadline, \* TRUE: the deviation BodyReadDeadline below can happen (time passes while a request waits)
   AllowOrphans    \* FALSE: requests unread when the server side of a connection stops are lost
                   \* (bounded model checking); TRUE: the old receive loop may still read them
 
@@ -355,6 +358,19 @@ AcquireMem(id) ==
   /\ mem' = mem + Take(id)
   /\ srv' = [srv EXCEPT ![id].st = "needworker"]
   /\ UNCHANGED <<call, writeQ, inFlight, cli, c2s, s2c, link, proxy, sconn, orph, pool, srvSt, pend>>
+(* BodyReadDeadline (deviation from "excess load waits"): the read deadline *)
+(* of the connection is set when the receive loop starts to wait for a     *)
+(* packet header (DefaultPacketTimeout * 11/10) and is not renewed before  *)
+(* the body is read.  A request that waits for request memory longer than  *)
+(* what is left of it, and whose body is not yet in the read buffer, fails *)
+(* with an i/o timeout in ReadPacketBodyUnlocked: the server closes the    *)
+(* connection, and every call in flight on it ends with closedSE.          *)
+BodyReadDeadline(id) ==
+  LET c == OwnerOf(id) IN
+  /\ AllowBodyDeadline
+  /\ srv[id].st = "needmem" /\ srv[id].live /\ SOpen(c)
+  /\ link' = [link EXCEPT ![c] = "broken"]
+  /\ UNCHANGED <<call, writeQ, inFlight, cli, c2s, s2c, proxy, sconn, srv, orph, pool, mem, srvSt, pend>>
 (* ... or failed because the connection's context was cancelled            *)
 RecvAbort(id) ==
   /\ srv[id].st = "needmem" /\ ~srv[id].live
@@ -513,7 +529,7 @@ SyncPending == \E x \in pend : x.k \in {"cut", "proxy", "shutdown"}
 (* mainline steps first.)                                                    *)
 Deviations ==
   \/ \E id \in CallIds : CtxDeadline(id) \/ SetupExpired(id) \/ HandlerSkipExpired(id) \/ RecvAbort(id)
-                         \/ OrphanDrop(id) \/ OrphanRecv(id)
+                         \/ OrphanDrop(id) \/ OrphanRecv(id) \/ BodyReadDeadline(id)
   \/ \E c \in Clients : ConnectFail(c) \/ SrvConnStop(c) \/ ConnDrop(c) \/ MassCancel(c)
 Mainline ==
   \/ \E c \in Clients : CliCloseDo(c) \/ CutDo(c) \/ ProxyDo(c)
